@@ -846,6 +846,8 @@ class Engine:
         if kind == 'FloatToInt':
             return float_to_int(a, ty)
         if kind == 'FloatToFloat':
+            if not isinstance(a.v, float) and a.v.sort() != z3.Float64() and ty == 'f64':
+                return FP(z3.fpFPToFP(z3.RNE(), a.v, z3.Float64()))
             return a
         raise Unsupported('cast kind %s' % kind)
 
